@@ -35,6 +35,12 @@ pub fn verif_dir() -> String {
     std::env::var("VERIF_DIR").unwrap_or_else(|_| "/verif".to_string())
 }
 
+/// where evidence and replay files go (overridden by the mutant self-test so that runs against
+/// scratch copies never overwrite the evidence of the real tree)
+pub fn evidence_dir() -> String {
+    std::env::var("VERIF_EVIDENCE_DIR").unwrap_or_else(|_| format!("{}/evidence", verif_dir()))
+}
+
 /// One input-space case: an operation name, a byte buffer and a few integer / text arguments.
 /// Everything needed to re-run the judgement without the explorer.
 #[derive(Clone, Debug, Serialize, Deserialize, PartialEq, Eq, Default)]
@@ -393,7 +399,7 @@ pub fn load_findings() -> Vec<Finding> {
 // replay files and evidence
 
 pub fn write_replay(v: &Violation, n: usize) -> String {
-    let dir = format!("{}/evidence/replays", verif_dir());
+    let dir = format!("{}/replays", evidence_dir());
     let _ = std::fs::create_dir_all(&dir);
     let path = format!("{}/{}-{}.json", dir, v.property, n);
     let body = serde_json::to_string_pretty(v).unwrap();
@@ -402,7 +408,7 @@ pub fn write_replay(v: &Violation, n: usize) -> String {
 }
 
 pub fn write_evidence_raw(prop: &str, tier: Tier, seed: u64, rep: &Report, wall: f64, violations: usize, extra_notes: &[String]) -> std::io::Result<()> {
-    let dir = format!("{}/evidence", verif_dir());
+    let dir = evidence_dir();
     std::fs::create_dir_all(&dir)?;
     let mut samples = rep.acc.samples.clone();
     if samples.is_empty() {
